@@ -71,7 +71,12 @@ fn replay_common(args: &Args, registry: &[Entry], prop: &str) -> ! {
                 Some(e) => {
                     let mut st = CompiledStats::default();
                     let hdr = crate::util::unhex(w["header"].as_str().unwrap_or(""));
-                    if hdr.is_empty() {
+                    if let Some(m) = w["message"].as_str() {
+                        let text = String::from_utf8_lossy(&crate::util::unhex(m)).trim_end_matches('\n').to_string();
+                        let units: Vec<String> = text.split(';').map(|u| u.to_string()).collect();
+                        let mut buf = Vec::new();
+                        prog::message_case(e, &e.all_decls(), &units, &mut buf, &mut st, &mut g);
+                    } else if hdr.is_empty() {
                         // an emitted-tree group: the tree comparison is the first thing check_compiled does
                         check_compiled(e, 1, 0, &mut g, &mut st);
                     } else {
@@ -182,7 +187,8 @@ pub fn main_c01(registry: Vec<Entry>) {
                             "near_miss_pool": "per declared mnemonic: short, long (upper/lower/mixed), every proper prefix of long, short minus one letter, long/short plus one letter, foreign ZZ",
                             "full_product": format!("all headers of 1..=L levels over the pool, L = largest with |pool|^L <= {full_budget} (at most depth+1 and 4); smallest L over all interfaces: {}", cs.full_product_levels_min),
                             "guided": "around every declared spelling: every single substitution (every pair if affordable), every insertion of a pool mnemonic (extra level), every deletion (missing level), every swap of neighbours (misplaced level)",
-                            "variants": "leading ':' x '?'"}}),
+                            "variants": "leading ':' x '?'",
+                            "compound_messages": "every declared spelling also as second unit behind a declared unit (absolute), and every pool mnemonic as last unit behind it (relative), behind it and an absolute single-level unit, behind it and a common command; expected handler by the path rule"}}),
     );
     out.cov("phase_wall_s", json!({"direct": t_direct, "compiled": t0.elapsed().as_secs_f64() - t_direct}));
     out.cov(
